@@ -73,6 +73,16 @@ CLAIMED = {
              "known finding (EOF inside a line yields a truncated message).",
         ref="§4 C19", technique="symbolic execution with symbolic time on a virtual event loop (CrossHair + z3)", engine="vloop",
     ),
+    "C05": dict(
+        text="Bounded symbolic execution (CrossHair + z3) of the real UDSClient.request/_request/request_unsafe and the real ECU tester-present worker on a "
+             "virtual-time event loop: 2-3 concurrent callers whose start instants, reply delays (including replies arriving after the caller's timeout), "
+             "reconnect time and cancellation instant are symbolic microsecond values, so the solver decides every arrival order; on every schedule no request "
+             "is transmitted while another caller's exchange (incl. pending extension and retry) is in flight, every caller gets its own reply or an error, "
+             "and the loop going idle implies all callers completed.",
+        note="Trusted: CrossHair, z3, engine/vloop.py. Transport is a timing-aware simulation; in the quick tier some instants are fixed per obligation (stated in the "
+             "evidence). OS threads and other loops are outside.",
+        ref="§4 C05", technique="symbolic execution with symbolic time on a virtual event loop (CrossHair + z3)", engine="vloop",
+    ),
     "C02": dict(
         text="Bounded symbolic execution (CrossHair + z3) of the real UDSResponse.parse_dynamic / from_pdu / pdu code: for every first byte "
              "0x00-0xFF and every total length in the stated bound, with all remaining bytes symbolic, every path is explored and the "
